@@ -333,8 +333,8 @@ type Outcome struct {
 	Affected  int64
 	Matched   int64 // UPDATE: rows matched
 	Warnings  int
-	CountOpen bool // affected-row arithmetic intentionally unchecked (documented engine/MySQL difference)
-	OrderDep  bool // result depends on an unspecified processing order: only "no garbage" is checked
+	CountOpen bool      // affected-row arithmetic intentionally unchecked (documented engine/MySQL difference)
+	OrderDep  bool      // result depends on an unspecified processing order: only "no garbage" is checked
 	Alts      []*MTable // every legitimate final state of a successful execution when OrderDep
 }
 
